@@ -3,6 +3,7 @@ import OnetVerif.Model.C19Proxy
 import OnetVerif.Proofs.C19Field
 import OnetVerif.Proofs.C19Stats
 import OnetVerif.Proofs.C19Net
+import OnetVerif.Proofs.C19Files
 import Mathlib.Algebra.Order.Field.Rat
 import Mathlib.Algebra.Order.BigOperators.Group.List
 import OnetVerif.Shapes
@@ -525,6 +526,168 @@ theorem c19_proxy_reset_blocks_next_client_variant :
   decide
 
 end proxy
+
+section writeout
+variable {α κ : Type} [Num α] [LinearOrder κ]
+
+private theorem zip_flatMap {X A B : Type} (f : X → List A) (g : X → List B) (h : ∀ x, (f x).length = (g x).length) :
+    ∀ l : List X, (l.flatMap f).zip (l.flatMap g) = l.flatMap fun x => (f x).zip (g x)
+  | [] => rfl
+  | x :: l => by
+    simp only [List.flatMap_cons]
+    rw [List.zip_append (h x), zip_flatMap f g h l]
+
+/-- **c19_columns_aligned** (`Stats.WriteHeader` / `Stats.WriteValues`, stats.go:74-113): for every result set —
+any measures, any number of them — the header and a values line have the same number of columns, and column for
+column the header names the measure and the statistic (`0 … 4` = `_min _max _avg _sum _dev`) whose value the
+values line carries there: both walk `keys` in the same order.  Falsified by a `WriteValues` that walks the map
+(`for _, v := range s.values`, as `String()` does), by a different order of the five fields in `HeaderFields` and
+`Values`, or by a column left out on one side. -/
+theorem c19_columns_aligned (s : Stats κ α) :
+    s.headerCols.length = s.valueCols.length ∧
+    s.headerCols.zip s.valueCols = s.vals.flatMap fun kv =>
+      let v := kv.2.collect
+      [((kv.1, 0), v.min), ((kv.1, 1), v.max), ((kv.1, 2), v.newM), ((kv.1, 3), v.sum), ((kv.1, 4), v.dev)] := by
+  have hz : s.headerCols.zip s.valueCols = s.vals.flatMap fun kv =>
+      let v := kv.2.collect
+      [((kv.1, 0), v.min), ((kv.1, 1), v.max), ((kv.1, 2), v.newM), ((kv.1, 3), v.sum), ((kv.1, 4), v.dev)] := by
+    simp only [Stats.headerCols, Stats.valueCols, Stats.collect, List.flatMap_map]
+    rw [zip_flatMap _ _ (by intro x; simp [Value.values])]
+    rfl
+  refine ⟨?_, hz⟩
+  simp only [Stats.headerCols, Stats.valueCols, Stats.collect, List.flatMap_map, List.length_flatMap]
+  simp [Value.values]
+
+/-- the static columns line up as well (the keys of `staticKeys` that have a value, in that order, on both lines) -/
+theorem c19_static_columns_aligned (s : Stats κ α) :
+    s.staticHeader.zip s.staticValues = s.static ∧ s.staticHeader.length = s.staticValues.length := by
+  simp only [Stats.staticHeader, Stats.staticValues, List.length_map, and_true]
+  induction s.static with
+  | nil => rfl
+  | cons a l ih => simp [ih]
+
+/-- **c19_column_order** (`Stats.Update`: `append` + `sort.Strings`): after any sequence of measures the measure
+columns appear in strictly ascending name order, one group per name that was recorded — whatever the arrival order.
+Falsified by an `Update` that does not re-sort (`keys` in arrival order) or that appends a name twice. -/
+theorem c19_column_order (ms : List (κ × α)) :
+    (({} : Stats κ α).updates ms).keys.Pairwise (· < ·) ∧
+    ∀ k, k ∈ (({} : Stats κ α).updates ms).keys ↔ k ∈ ms.map (·.1) := by
+  refine ⟨sorted_updates _ ms (by simp [SortedKeys, keysOf]), fun k => ?_⟩
+  have := mem_keys_updates ({} : Stats κ α) ms k
+  simpa [Stats.keys, keysOf] using this
+
+/-- **c19_header_fits_same_names**: two result sets in which the same measure names were recorded (in whatever
+order, however often, with whatever values) have the same header — so the header `RunTests` writes for run 0
+labels the values line of a later run correctly whenever that run recorded the same measures. -/
+theorem c19_header_fits_same_names (ms₁ ms₂ : List (κ × α)) (h : ∀ k, k ∈ ms₁.map (·.1) ↔ k ∈ ms₂.map (·.1)) :
+    (({} : Stats κ α).updates ms₁).headerCols = (({} : Stats κ α).updates ms₂).headerCols := by
+  have h1 := c19_column_order (α := α) ms₁
+  have h2 := c19_column_order (α := α) ms₂
+  have hk : (({} : Stats κ α).updates ms₁).keys = (({} : Stats κ α).updates ms₂).keys :=
+    sorted_ext _ _ h1.1 h2.1 (fun k => by rw [h1.2, h2.2, h])
+  have hc : ∀ s : Stats κ α, s.headerCols = s.keys.flatMap fun k => (List.range 5).map fun i => (k, i) := by
+    intro s; simp [Stats.headerCols, Stats.keys, keysOf, List.flatMap_map]
+  rw [hc, hc, hk]
+
+example : (({} : Stats ℕ ℚ).updates [(2, 1), (1, 5), (2, 3)]).keys = [1, 2] := by decide
+
+variable {S : Type}
+
+/-- **c19_runtests_files** (`simul.RunTests`, build.go:134-181): for every list of runs (each a list of result
+sets, or an error), every `-range` and every file index `j`: file `j` receives, in run order, the lines of the
+`j`-th result set of every run that is inside the range, did not fail and has a `j`-th result set — nothing else,
+nothing twice — and exactly as many files are opened as the widest such run has result sets.  Falsified by
+`files[j]` indexed by anything but the bucket index (e.g. a file list that is reset per run, or `append` without
+the `j >= len(files)` test), by a range test that is off by one, by a failed run that is written. -/
+theorem c19_runtests_files (simRange : List Nat) (runs : List (Option (List S))) (j : Nat) :
+    (runTests simRange runs)[j]?.getD [] = specFrom (getStartStop simRange runs.length) j 0 runs ∧
+    (runTests simRange runs).length = widthFrom (getStartStop simRange runs.length) 0 runs := by
+  unfold runTests
+  rw [runTestsFrom_get, runTestsFrom_length]
+  simp
+
+def Line.isHeader : Line S → Bool
+  | .header _ => true
+  | .values _ => false
+
+private theorem specFrom_no_header (ss : Int × Int) (j : Nat) : ∀ (runs : List (Option (List S))) (i : Nat), 0 < i →
+    ∀ l ∈ specFrom ss j i runs, l.isHeader = false
+  | [], i, _, l, hl => by simp [specFrom] at hl
+  | r :: rs, i, hi, l, hl => by
+    unfold specFrom at hl
+    rw [List.mem_append] at hl
+    rcases hl with hl | hl
+    · have hne : ¬ i = 0 := by omega
+      by_cases hr : inRange ss i
+      · cases r with
+        | none => simp [hr] at hl
+        | some sets =>
+          cases hs : sets[j]? with
+          | none => simp [hr, hs] at hl
+          | some s =>
+            simp [hr, hs, runLines, hne] at hl
+            subst hl; rfl
+      · simp [hr] at hl
+    · exact specFrom_no_header ss j rs (i + 1) (by omega) l hl
+
+/-- **c19_runtests_header_once**: in every file a header line can only be the first line written, and it is written
+exactly when run 0 is inside the range, did not fail and has that result set: every later line is a values line.
+(With `-range 2:3` the files are opened in append mode and get no header: the lines go under the header an earlier
+invocation wrote.)  Falsified by `if i == start`, by a header per run, by a header written after the values. -/
+theorem c19_runtests_header_once (simRange : List Nat) (r0 : Option (List S)) (rest : List (Option (List S))) (j : Nat) :
+    ∃ first, (runTests simRange (r0 :: rest))[j]?.getD [] = first ++ specFrom (getStartStop simRange (r0 :: rest).length) j 1 rest ∧
+      (∀ l ∈ specFrom (getStartStop simRange (r0 :: rest).length) j 1 rest, l.isHeader = false) ∧
+      first = (if inRange (getStartStop simRange (r0 :: rest).length) 0 then
+                 match r0 with
+                 | some sets => match sets[j]? with
+                   | some s => [Line.header s, Line.values s]
+                   | none => []
+                 | none => []
+               else []) := by
+  refine ⟨_, ?_, specFrom_no_header _ j rest 1 (by omega), rfl⟩
+  rw [(c19_runtests_files simRange (r0 :: rest) j).1]
+  generalize getStartStop simRange (r0 :: rest).length = ss
+  show (_ ++ specFrom ss j 1 rest) = _
+  congr 1
+  cases inRange ss 0 with
+  | false => rfl
+  | true =>
+    cases r0 with
+    | none => rfl
+    | some sets =>
+      simp only [if_true]
+      cases hs : sets[j]? with
+      | none => simp
+      | some v => simp [runLines]
+
+/-- without a range every run is executed; `a:b` executes exactly the runs a..b; `a` only run a; `a:` from a on;
+a first field that is no number executes everything (`:4` too) -/
+theorem c19_range_none_runs_all (n i : Nat) (h : i < n) : inRange (getStartStop [] n) i = true := by
+  simp [getStartStop, splitColon, atoi, inRange]; omega
+
+example : getStartStop [51, 58, 52] 10 = (3, 4) ∧ getStartStop [51] 10 = (3, 3) ∧
+    getStartStop [51, 58] 10 = (3, 10) ∧ getStartStop [58, 52] 10 = (0, 9) ∧ getStartStop [] 10 = (0, 9) := by
+  decide
+
+/-- a run with one result set after a run with three: the second and third file get the lines of the first run only -/
+example : runTests [] [some ["a0", "a1", "a2"], none, some ["c0"]] =
+    [[.header "a0", .values "a0", .values "c0"], [.header "a1", .values "a1"], [.header "a2", .values "a2"]] := by
+  decide
+
+/-- `-range 1:2`: no header anywhere, the file of a bucket that only run 2 has is opened then -/
+example : runTests [49, 58, 50] [some ["a0"], some ["b0"], some ["c0", "c1"], some ["d0"]] =
+    [[.values "b0", .values "c0"], [.values "c1"]] := by
+  decide
+
+/-- the open mode: a range appends to what an earlier invocation left, no range starts the file anew -/
+theorem c19_open_mode {X : Type} (old new : List X) (r : List Nat) :
+    fileAfter [] old new = new ∧ (r ≠ [] → fileAfter r old new = old ++ new) := by
+  refine ⟨rfl, fun h => ?_⟩
+  cases r with
+  | nil => exact absurd rfl h
+  | cons a l => rfl
+
+end writeout
 
 /-! ### the code regions the model stands for
 Regenerated from /repo's source on every run (`harness/cmd/astfacts` → `OnetVerif/Shapes.lean`): the
